@@ -6,9 +6,12 @@
        rejects it (Mismatch), and so does the specification Sem/FunTyping.v (rule main : i64).  The annotated form was
        the real checker's output for corpus/fun/c12_main_nonint.sc before the fix (modelrun wt-stages still compares it
        whenever a checker accepts that file).
-   (2) the unguarded statement `accepted + Barendregt -> the translation is well typed` stays FALSE of the current
-       checker because of the known finding call-to-main: corpus/fun/call_main_nontail.sc is accepted, satisfies the
-       Barendregt condition, and `main(0, mu~ r. ..)` against `def main(n)` has the wrong number of arguments. *)
+   (2) REGRESSION, former finding call-to-main (fixed in /repo by f929eb7): the statement `accepted + Barendregt -> the
+       translation is well typed` - and the statement guarded by prog_tyguard, which has no call-of-main exclusion any
+       more - was FALSE of the translation before the fix: corpus/fun/call_main_nontail.sc is accepted, satisfies the
+       Barendregt condition and the guard, and `main(0, mu~ r. ..)` against `def main(n)` has the wrong number of
+       arguments.  The repaired translation of the witness is well typed (by evaluation here; by the THEOREM in
+       Proof/WtExamples3.v). *)
 From Coq Require Import List ZArith NArith String Bool.
 From SCC Require Import Lang.FunSyn Lang.CoreSyn Model.Check Sem.FunTyping Sem.FunErase Sem.CoreCheck Model.Fun2Core
      Model.Fun2CoreTyGuard.
@@ -35,7 +38,7 @@ Lemma fun2core_call_main_typing_refuted_before_fix_lemma :
     has_type_b src = true /\ Check.check src = COk p /\ annotated_fcprog p = true /\
     compile_prog_before_fix p = Fun2Core.Ok c /\ wt_core c = false /\
     shadowing_risk_prog p = false /\ calls_main_prog p = true /\ barendregt p = true /\
-    prog_tyguard p = false.
+    prog_tyguard p = true.
 Proof.
   exists call_main_source, call_main_witness.
   destruct (compile_prog_before_fix call_main_witness) as [c|m] eqn:E; [|vm_compute in E; discriminate].
